@@ -252,6 +252,7 @@ def observe_chain(chain, with_paths=False):
             inputs=ins,
             canon=canon[id(t)],
             path=rel_path(t.data_path) if with_paths else None,
+            objid=id(t),
         )
     edges = sorted({(canon[id(u)], canon[id(v)]) for u, v in chain.graph.edges})
     return dict(tasks=out, edges=[list(e) for e in edges])
@@ -339,7 +340,7 @@ def exec_segment(case, mod, ops, fail):
     from . import pipeline as me
     me.FAIL.clear()
     me.FAIL.update(fail)
-    chains, obs = [], []
+    chains, obs, multis = [], [], []
     for op in ops:
         before = len(me.RUNLOG)
         resolved = dict(op)
@@ -358,12 +359,30 @@ def exec_segment(case, mod, ops, fail):
                 try:
                     mc = MultiChain([build_config(case, mod, base=b) for b in op['bases']])
                     members = list(mc.chains.values())
+                    multis.append((mc, list(range(len(chains), len(chains) + len(members)))))
                     chains.extend(members)
                     out = ['ok', {'chains': [observe_chain(c) for c in members]}]
                 except Exception as e:
+                    multis.append((None, list(range(len(chains), len(chains) + len(op['bases'])))))
                     chains.extend([None] * len(op['bases']))
                     out = 'error'
                     resolved['err'] = f'{type(e).__name__}: {e}'[:200]
+            elif kind == 'force_multi':
+                mc, idxs = multis[op['multi'] % len(multis)] if multis else (None, [])
+                resolved['chains'] = idxs
+                first = chains[idxs[0]] if idxs else None
+                if mc is None or first is None or not first.tasks:
+                    resolved['names'] = []
+                    resolved['chains'] = []
+                    out = ['ok', None]
+                else:
+                    names = list(first.tasks)
+                    resolved['names'] = sorted({names[k % len(names)] for k in op['picks']})
+                    try:
+                        mc.force(resolved['names'], recompute=op['recompute'], delete_data=op['delete'])
+                        out = ['ok', None]
+                    except ValueError:
+                        out = 'error'
             elif kind == 'fail':
                 me.FAIL.clear()
                 me.FAIL.update(op['slugs'])
@@ -410,7 +429,7 @@ def exec_segment(case, mod, ops, fail):
         except Exception as e:   # anything else is an observation too
             out = {'unexpected_exception': type(e).__name__, 'text': str(e)[:300]}
         runs = [f'{s}#{k}' for _, s, k in me.RUNLOG[before:]]
-        if op['op'] == 'force_chain':
+        if op['op'] in ('force_chain', 'force_multi'):
             runs = sorted(runs)
         obs.append(dict(out=out, runs=runs, files=list_store(), op=resolved))
     return obs, sorted(me.FAIL)
